@@ -20,6 +20,7 @@ EXPLANATION = (
     "attribute filter reads the attribute inside try/except AttributeError → False and compares with ==; the verdict is initialised per node and every admitted node is examined. F5 the "
     "CountError message templates are constants. Not decided: "
     "that PreOrderIter itself is right (C05/C06)."
+    " Added in round 16: F4 `attr in (value,)` is not `attr == value` (containment tests identity first)."
 )
 ASSUMPTIONS = ["fastcache (optional, not installed) is outside the analysed program", "len() of a tuple is its number of elements"]
 S = "anytree/search.py"
